@@ -32,25 +32,24 @@ Proof. exists 16, 17. vm_compute. repeat split; discriminate. Qed.
 Lemma usubBorrow_partial x y : 0 <= x < 2 ^ 32 -> 0 <= y < 2 ^ 32 -> x = y \/ x - y = 2 ^ 31 \/ y - x = 2 ^ 31 -> fst (usubBorrow x y) = (x - y) mod 2 ^ 32.
 Proof. intros Hx Hy H. pose proof (usubBorrow_characterised x y Hx Hy) as C. destruct (usubBorrow x y) as [r b]. destruct C as [-> _]. cbn [fst]. change (2 ^ 32) with 4294967296 in *. change (2 ^ 31) with 2147483648 in *. lia. Qed.
 
-(* bitfieldExtract, unsigned element types of every width: bits [offset, offset+bits) zero-extended, for every field below 32 bits *)
+(* bitfieldExtract, unsigned element types of every width: bits [offset, offset+bits) zero-extended, for EVERY field (also the
+   whole word, and fields of 32 bits and more of a 64-bit element: the mask is computed in the unsigned element type) *)
 Lemma land_ones_pow n a : 0 <= n -> Z.land a (2 ^ n - 1) = a mod 2 ^ n.
 Proof. intros Hn. replace (2 ^ n - 1) with (Z.ones n) by (rewrite Z.ones_equiv; lia). apply Z.land_ones; exact Hn. Qed.
-Lemma bitfieldExtract_unsigned w v off bits : (w = 8 \/ w = 16 \/ w = 32 \/ w = 64) -> 0 <= v < 2 ^ w -> 0 <= off -> 0 <= bits < 32 -> off + bits <= w ->
+Lemma bitfieldExtract_unsigned w v off bits : (w = 8 \/ w = 16 \/ w = 32 \/ w = 64) -> 0 <= v < 2 ^ w -> 0 <= off -> 0 <= bits -> off + bits <= w ->
   bitfieldExtract false w v off bits = extract_spec false w v off bits.
 Proof.
   intros Hw Hv Ho Hb Hob. unfold bitfieldExtract, extract_spec, band, shr. rewrite !umod_mod by lia. cbn [andb]. rewrite Z.shiftr_div_pow2 by lia.
-  assert (Hmask : mask_int bits = 2 ^ bits - 1).
-  { unfold mask_int. replace (32 <=? bits) with false by (symmetry; apply Z.leb_gt; lia). rewrite norm_mod by lia. cbv zeta. cbn [andb].
-    assert (0 < 2 ^ bits <= 2 ^ 31) by (split; [apply Z.pow_pos_nonneg; lia | apply Z.pow_le_mono_r; lia]).
-    change (2 ^ 32) with 4294967296. change (2 ^ (32 - 1)) with 2147483648. change (2 ^ 31) with 2147483648 in H.
-    rewrite Z.mod_small by lia. replace (2147483648 <=? 2 ^ bits - 1) with false by (symmetry; apply Z.leb_gt; lia). reflexivity. }
-  rewrite Hmask. assert (Hpw : 0 < 2 ^ w) by (apply Z.pow_pos_nonneg; lia). assert (Hpb : 0 < 2 ^ bits <= 2 ^ w) by (split; [apply Z.pow_pos_nonneg; lia | apply Z.pow_le_mono_r; lia]).
-  rewrite (Z.mod_small (2 ^ bits - 1)) by lia.
+  assert (Hpw : 0 < 2 ^ w) by (apply Z.pow_pos_nonneg; lia). assert (Hpb : 0 < 2 ^ bits <= 2 ^ w) by (split; [apply Z.pow_pos_nonneg; lia | apply Z.pow_le_mono_r; lia]).
+  assert (Hmask : mask_T false w bits = 2 ^ bits - 1).
+  { unfold mask_T. destruct (Z.leb_spec w bits) as [Hge|Hlt].
+    - assert (bits = w) by lia. subst bits. rewrite norm_mod by lia. cbn [andb]. replace ((-1) mod 2 ^ w) with (2 ^ w - 1); [reflexivity|].
+      apply (Z.mod_unique (-1) (2 ^ w) (-1) (2 ^ w - 1)); lia.
+    - rewrite norm_mod by lia. cbn [andb]. apply Z.mod_small. lia. }
+  rewrite Hmask. rewrite (Z.mod_small (2 ^ bits - 1)) by lia.
   rewrite land_ones_pow by lia. rewrite (Z.mod_small v) by lia.
   assert (0 <= (v / 2 ^ off) mod 2 ^ bits < 2 ^ bits) by (apply Z.mod_pos_bound; lia). rewrite Z.mod_small by lia. reflexivity.
 Qed.
 (* known findings (refuted statements with witnesses) *)
 Lemma bitfieldExtract_signed_refuted : exists v off bits, in_T true 32 v = true /\ 0 <= off /\ 0 <= bits /\ off + bits <= 32 /\ bitfieldExtract true 32 v off bits <> extract_spec true 32 v off bits.
 Proof. exists (-1), 0, 4. vm_compute. repeat split; discriminate. Qed.
-Lemma bitfieldExtract_64bit_wide_field_refuted : exists v off bits, 0 <= v < 2 ^ 64 /\ 0 <= off /\ 32 <= bits /\ off + bits <= 64 /\ bitfieldExtract false 64 v off bits <> extract_spec false 64 v off bits.
-Proof. exists (2 ^ 64 - 1), 0, 40. vm_compute. repeat split; discriminate. Qed.
